@@ -37,6 +37,18 @@ fn width_of(ctx: &Context, e: ExprRef) -> u32 {
 
 /// All assignments if the symbols total <= `exh_bits` bits, else corner-biased samples.
 pub fn assignments(ctx: &Context, syms: &[ExprRef], rng: &mut SplitMix, exh_bits: u32, samples: usize) -> (Vec<Env>, bool) {
+    assignments_with(ctx, syms, rng, exh_bits, samples, &[])
+}
+
+/// Like `assignments`; sampled assignments additionally draw from `dict` (see `dictionary`).
+pub fn assignments_with(
+    ctx: &Context,
+    syms: &[ExprRef],
+    rng: &mut SplitMix,
+    exh_bits: u32,
+    samples: usize,
+    dict: &[BigUint],
+) -> (Vec<Env>, bool) {
     let mut total_bits: u64 = 0;
     let mut only_bv = true;
     for s in syms {
@@ -90,10 +102,62 @@ pub fn assignments(ctx: &Context, syms: &[ExprRef], rng: &mut SplitMix, exh_bits
     } else {
         let mut out = vec![];
         for _ in 0..samples {
-            out.push(crate::props::c06::random_env(ctx, syms, rng));
+            let mut env = crate::props::c06::random_env(ctx, syms, rng);
+            // dictionary values: a third of the sampled assignments give some symbols a literal of the
+            // case itself (or a neighbour of it), so that comparisons against constants, special divisors,
+            // masks and indices that the expressions mention are hit on wide symbols too
+            if !dict.is_empty() && rng.below(3) == 0 {
+                for s in syms {
+                    if rng.below(2) == 0 {
+                        continue;
+                    }
+                    let lit = &dict[rng.below(dict.len() as u64) as usize];
+                    let pick = |rng: &mut SplitMix, w: u32| -> Bv {
+                        let m = BigUint::from(1u32) << w;
+                        let v = match rng.below(6) {
+                            0 => lit + 1u32,
+                            1 => (lit + &m - 1u32) % &m,
+                            2 => (&m - (lit % &m)) % &m,
+                            _ => lit.clone(),
+                        };
+                        Bv::new(w, v % &m)
+                    };
+                    match s.get_type(ctx) {
+                        Type::BV(w) => {
+                            let v = pick(rng, w);
+                            env.insert(*s, Val::Bv(v));
+                        }
+                        Type::Array(a) => {
+                            if let Some(Val::Arr(arr)) = env.get(s).cloned() {
+                                let idx = pick(rng, a.index_width);
+                                let data = pick(rng, a.data_width);
+                                env.insert(*s, Val::Arr(arr.store(&idx, &data)));
+                            }
+                        }
+                    }
+                }
+            }
+            out.push(env);
         }
         (out, false)
     }
+}
+
+/// literal values occurring in the expressions below `roots` (the assignment dictionary)
+pub fn dictionary(ctx: &Context, roots: &[ExprRef]) -> Vec<BigUint> {
+    let mut out: Vec<BigUint> = vec![];
+    for n in reachable(ctx, roots) {
+        if let Expr::BVLiteral(v) = &ctx[n] {
+            let b = Bv::from_baa(&v.get(ctx));
+            if !out.contains(&b.v) {
+                out.push(b.v);
+            }
+        }
+        if out.len() >= 64 {
+            break;
+        }
+    }
+    out
 }
 
 pub fn show_env(ctx: &Context, env: &Env) -> String {
@@ -237,7 +301,8 @@ impl Prop for C01 {
         let ctx = &mut case.ctx;
         let mut rng = SplitMix(hash_bytes(tape));
         let syms = refeval::symbols_of(ctx, &roots);
-        let (envs, exhaustive) = assignments(ctx, &syms, &mut rng, 12, 24);
+        let dict = dictionary(ctx, &roots);
+        let (envs, exhaustive) = assignments_with(ctx, &syms, &mut rng, 12, 24, &dict);
         rec.eval();
         rec.label(match mode {
             0 => "mode:single",
